@@ -388,6 +388,16 @@ class FnAnalysis:
             else:
                 self.oks.append(('R16.5', n, 'generator built from the '
                                  'seed'))
+            # an integer seed that builds a local generator *and* reaches a
+            # stochastic callee restarts the same stream twice
+            for a in args:
+                v = self.val(a, st)
+                if v is not None and 'INT' in v and isinstance(a, ast.Name):
+                    name = a.id
+                    inloop = st['loop'] > 0 and name not in st['loopdef']
+                    key = (name, st['ver'].get(name, 0)
+                           if name not in st['loopdef'] else id(n))
+                    self.fan.setdefault(key, []).append((n, inloop))
             return
         g = _is_global_draw(n)
         if g:
